@@ -216,14 +216,16 @@ def is_allowlisted(
 def is_in_allowlist_cache(entity, options):
   try:
     return _ALLOWLIST_CACHE.has(entity, options)
-  except TypeError:
-    # Catch-all for entities that are unhashable or don't allow weakrefs.
+  except Exception:  # pylint:disable=broad-except
+    # Catch-all for entities that are unhashable, don't allow weakrefs, or whose
+    # comparison has no truth value (e.g. array-like callables).
     return False
 
 
 def cache_allowlisted(entity, options):
   try:
     _ALLOWLIST_CACHE[entity][options] = True
-  except TypeError:
-    # Catch-all for entities that are unhashable or don't allow weakrefs.
+  except Exception:  # pylint:disable=broad-except
+    # Catch-all for entities that are unhashable, don't allow weakrefs, or whose
+    # comparison has no truth value (e.g. array-like callables).
     pass
